@@ -158,7 +158,7 @@ Proof. vm_compute. reflexivity. Qed.
 (* The index a site passes IS the construct's line (Proofs/DiagCulprit.v): statements about parse_real *)
 (* =========================================================================================== *)
 From Coq Require Import String List Bool Arith.
-From Bardic Require Import PyStr ParseBase ParseLine ParseMain ParseBlocks ParseBlocksInst ParseAllProofs DiagCulprit.
+From Bardic Require Import PyStr Lex ParseBase ParseLine ParseMain ParseBlocks ParseBlocksInst ParseAllProofs DiagCulprit.
 Import ListNotations.
 Local Open Scope string_scope.
 Local Close Scope Z_scope.
@@ -186,32 +186,45 @@ Theorem diag_index_in_range_line_sites : forall pp is_call ls site i,
 Proof. exact diag_index_in_range_line_sites_lemma. Qed.
 Print Assumptions diag_index_in_range_line_sites.
 
-(* ... and every SyntaxError (`located` excludes no site) when Python blames a line of the statement it was given
-   (errline_inside: offset <= number of line feeds) and the lines are lines of source.split("\n").  core.py reports
-   `i + (e.lineno - 1)` for a `~` statement, unclamped; the model does the same (oracle py_stmt_errline). *)
+(* ... and every SyntaxError (`located` excludes no site), for every oracle and every line list.  core.py reports
+   `i + min(max(e.lineno - 1, 0), lines_consumed - 1)` for a `~` statement (fix F14c); the model does the same (oracle
+   py_stmt_errline, clamped to the lines the statement consumed). *)
 Theorem diag_index_in_range : forall pp is_call ls site i,
-  errline_inside pp -> Forall no_nl ls ->
   parse_real pp is_call ls = PDiag (DSyntax site i) -> located site = true -> i < length ls.
 Proof. exact diag_index_in_range_lemma. Qed.
 Print Assumptions diag_index_in_range.
 
-(* source.split("\n") yields such lines *)
+(* source.split("\n") yields lines without line feeds (premise of clamp_is_identity) *)
 Theorem split_lines_no_nl : forall source, Forall no_nl (split_char source LF).
 Proof. exact split_lines_no_nl_lemma. Qed.
 Print Assumptions split_lines_no_nl.
 
-(* Without the premise on Python's parser the statement is false, of the model and of the real compiler (finding
-   F14c): a bare carriage return inside a `~` statement is a line break for CPython, not for the compiler, and the
-   reported line lies outside the statement -- here past the end of the source ("on line 11" of a 4-line story). *)
-Theorem stmt_index_past_end_refuted :
-  exists pp is_call ls i,
-    Forall no_nl ls /\ parse_real pp is_call ls = PDiag (DSyntax stmt_site i) /\
-    length ls <= i /\ ~ inside_statement (prepass ls) i.
-Proof. exact stmt_index_past_end_refuted_lemma. Qed.
-Print Assumptions stmt_index_past_end_refuted.
+(* Regression examples of finding F14c (repaired): a bare carriage return inside a `~` statement is a line break for
+   CPython, not for the compiler.  With the oracle answering as CPython does (offset 9 for both statements, more than
+   their line feeds), the index used to lie outside the statement ("on line 11" of a 4-line story, "on line 12" of a
+   7-line one); now it is the `~` line (index 1, "on line 2") resp. the statement's last line (index 4, "on line 5"). *)
+Theorem stmt_index_clamped_regression :
+  ~ errline_inside cr_pp /\ Forall no_nl L_stmt_cr /\
+  parse_real cr_pp (fun _ => true) L_stmt_cr = PDiag (DSyntax stmt_site 1) /\
+  inside_statement_b (prepass L_stmt_cr) 1 = true /\
+  ~ errline_inside cr_pp2 /\ Forall no_nl L_stmt_cr2 /\
+  parse_real cr_pp2 (fun _ => true) L_stmt_cr2 = PDiag (DSyntax stmt_site 4) /\
+  inside_statement_b (prepass L_stmt_cr2) 4 = true /\ stmt_covers (prepass L_stmt_cr2) 4 2 = true.
+Proof. exact stmt_index_clamped_regression_lemma. Qed.
+Print Assumptions stmt_index_clamped_regression.
 
-(* What the candidate patch proposed_fixes/F14c-statement-error-line-outside-statement.diff does: a clamped offset
-   stays inside the statement for every answer of Python's parser. *)
+(* When Python blames a line of the text it was given and the lines are lines of source.split("\n"), the clamp changes
+   nothing: the offset of kind (s) is the offset Python blames. *)
+Theorem clamp_is_identity : forall pp lines k off n,
+  errline_inside pp -> Forall no_nl lines -> stmt_rejected_at pp lines k off n ->
+  exists cc, extract_multiline_expression lines k
+               (fst (strip_inline_comment (strip (drop 2 (nth k lines EmptyString))))) = (cc, n) /\
+             off = py_stmt_errline pp cc.
+Proof. exact clamp_is_identity_lemma. Qed.
+Print Assumptions clamp_is_identity.
+
+(* What fix F14c (proposed_fixes/F14c-statement-error-line-outside-statement.diff) does: a clamped offset stays inside
+   the statement for every answer of Python's parser. *)
 Theorem clamped_stmt_index_inside : forall lines k l off,
   nth_error lines k = Some l -> startswith l "~ " = true ->
   inside_statement lines (k + Nat.min off (stmt_consumed lines k l - 1)).
@@ -232,17 +245,16 @@ Theorem diag_classified : forall pp is_call ls site i,
 Proof. exact diag_classified_lemma. Qed.
 Print Assumptions diag_classified.
 
-(* "stmt:python-syntax": some `~` statement starts on a line k, Python's parser rejects the assembled statement, and
-   i = k + the offset of the line Python blames (for every oracle) ... *)
+(* "stmt:python-syntax": some `~` statement starts on a line k and consumes n lines, Python's parser rejects the
+   assembled statement, and i = k + min (the offset of the line Python blames) (n - 1) (for every oracle) ... *)
 Theorem stmt_site_blamed : forall pp is_call ls i,
   parse_real pp is_call ls = PDiag (DSyntax stmt_site i) -> stmt_blamed pp (prepass ls) i.
 Proof. exact stmt_site_blamed_lemma. Qed.
 Print Assumptions stmt_site_blamed.
 
 (* ... and line i lies inside that statement: it starts at a `~` line k <= i, k + consumed > i, and the statement
-   lies inside the source (k + consumed <= len(lines)) -- under the two premises of diag_index_in_range. *)
+   lies inside the source (k + consumed <= len(lines)) -- for every oracle and every line list. *)
 Theorem culprit_stmt_site : forall pp is_call ls i,
-  errline_inside pp -> Forall no_nl ls ->
   parse_real pp is_call ls = PDiag (DSyntax stmt_site i) -> inside_statement (prepass ls) i.
 Proof. exact culprit_stmt_site_lemma. Qed.
 Print Assumptions culprit_stmt_site.
